@@ -209,7 +209,7 @@ func TestC08(t *testing.T) {
 		ev.Class("big_list_constructions")
 		return nil
 	})
-	if ev.Thorough() && ev.Cfg.Shard == 0 {
+	if (ev.Thorough() || ev.Cfg.Replay != "") && ev.Cfg.Shard == 0 {
 		// a list of more than 2^24 words, one of which does not change under
 		// title-casing: list sizes and counts beyond what a float32 carries
 		// exactly (one shard only: the list takes a few GB while it is built)
